@@ -28,6 +28,10 @@ def parseOp (s : String) : Option Op :=
   | ["send", id, dl] => do
     let d ← if dl = "-" then some none else dl.toNat?.map some
     some (.send (← id.toNat?) d)
+  | ["send", id, dl, _kind] => do
+    -- the kind of request (payload / options) does not matter to the model: every copy is the clone of the call
+    let d ← if dl = "-" then some none else dl.toNat?.map some
+    some (.send (← id.toNat?) d)
   | ["sleep", d] => d.toNat?.map .sleep
   | ["tick", a] => a.toNat?.map .tick
   | ["ack", id] => id.toNat?.map .ack
